@@ -29,7 +29,7 @@ def main():
     with ThreadPoolExecutor(max_workers=os.cpu_count() or 8) as ex:
         errs = [e for e in ex.map(comp, list(firsts.values())) if e]
         errs += [e for e in ex.map(comp, sorted(todo)) if e]
-    for t in ("fz_c11", "fz_c13", "fz_c14"):
+    for t in ("fz_c08", "fz_c11", "fz_c12", "fz_c13", "fz_c14"):
         try:
             build.compile_fuzz_target(t)
         except Exception as e:
